@@ -154,6 +154,14 @@ func opChild(w *World, s *Step) (string, string) {
 		}
 	}
 	w.ext["child_nonce_arg"] = callerNonce
+	if s.N > 1 {
+		// a long-lived IKE SA: N-1 earlier derivations on this object (not inspected one by one)
+		for i := 1; i < s.N; i++ {
+			deriveChild(s, obj, callerNonce)
+		}
+		w.stats.add("soak_derivations", int64(s.N-1))
+		w.stats.inc("probe_65536_derivations_on_one_ike_sa")
+	}
 	got, res := deriveChild(s, obj, callerNonce)
 	uses, _ := w.ext[fmt.Sprintf("uses%d%s", s.SA, sd)].(int)
 	w.ext[fmt.Sprintf("uses%d%s", s.SA, sd)] = uses + 1
@@ -348,6 +356,12 @@ func genC08(r *Rng, idx int, tier string) *Scenario {
 		}
 		if r.Chance(1, 12) {
 			sc.Steps = append(sc.Steps, Step{Op: "prf_d_use", SA: 0, Side: cs.Side, Data: r.Bytes(r.Range(0, 300))})
+		}
+		if idx%3000 == 2999 && i == n/2 {
+			cs.N = 1<<16 + r.Intn(50)
+			if len(cs.Nonce) > 64 {
+				cs.Nonce = cs.Nonce[:64]
+			}
 		}
 		lastNonce, lastCS = cs.Nonce, cs
 		sc.Steps = append(sc.Steps, cs)
